@@ -536,6 +536,11 @@ func historyCase(c *h.Case) {
 			step = "drop"
 		default:
 			step = []string{"join", "join", "join", "join-wrong-key", "join-other-endpoint"}[rng.Intn(5)]
+			if (g.kind == "http" || g.kind == "tcpmux") && rng.Intn(5) == 0 {
+				// a proxy with two domains: the first one is the group's endpoint (that part of the registration
+				// succeeds), the second one is not — the registration is refused as a whole and must leave nothing
+				step = "join-second-domain"
+			}
 		}
 		if s == nSteps-1 { // end with everyone leaving one by one (exercises last leave + re-creation in the next case part)
 			step = "leave-all"
@@ -568,6 +573,20 @@ func historyCase(c *h.Case) {
 					firstPort = g.real
 				}
 			}
+		case "join-second-domain":
+			pm := g.newProxyMsg(m.name, g.key, false)
+			pm.CustomDomains = append(pm.CustomDomains, "second."+g.domain)
+			resp, err := m.peer.NewProxy(pm, 15*time.Second)
+			if err != nil {
+				c.Violation("group-join-no-reply", "%s: join got no reply: %v", g.kind, err)
+				return
+			}
+			run.Count("bad_joins_second_domain", 1)
+			if resp.Error == "" {
+				c.Violation("group-join-accepted-second-domain", "%s: a proxy whose second domain is not the group's endpoint was accepted into group %s (reply %+v)", g.kind, g.name, resp)
+				return
+			}
+			m.in = false
 		case "join-wrong-key", "join-other-endpoint":
 			if len(live) == 0 {
 				// no group to join: this creates a group with these parameters; undo to keep the model simple
